@@ -604,6 +604,10 @@ class ServeMpsMedia(MediaRequestBase):
             start_time = int(math.floor(
                 start_time * representation.timescale / timing_ref.timescale))
         if seg_time is not None:
+            period_duration: int = int(math.ceil(
+                period.duration.total_seconds() * representation.timescale))
+            if seg_time < 0 or seg_time >= period_duration:
+                raise ValueError('Time is outside of the Period')
             start_time += seg_time
         mod_seg, seg_start_tc, origin_time = representation.get_segment_index(
             start_time)
